@@ -50,6 +50,8 @@ where
         } else {
             Header::import_and_verify(&region, options.version, format)?
         };
+        #[cfg(feature = "verif")]
+        header.verif_register(region.verif_addr());
 
         Ok(Self {
             read_only: ReadOnlyBaseVec {
